@@ -419,6 +419,7 @@ Definition clear_all_status (v : apl_variant) : Prop :=
   match v with
   | APLPinned => exists p base B, has_conflicted B = true /\ clear_all_arm v p base B = Err TypeError
   | APLFixed => is_ok (clear_all_arm v w_path w_base w_none) = true /\ is_ok (clear_all_arm v w_path w_base w_mixed) = true
+  | APLOther => True           (* no claim; the executed correspondence fails instead *)
   end.
 
 Lemma clear_all_status_all v : clear_all_status v.
@@ -426,6 +427,7 @@ Proof.
   destruct v; cbn [clear_all_status].
   - exists w_path, w_base, w_none. split; [reflexivity | apply clear_all_refuted_pinned].
   - apply clear_all_witnesses_pass_fixed.
+  - exact I.
 Qed.
 
 (* what holds for the source as it is now (the generated constant): refuted while pinned, witnesses pass once repaired *)
